@@ -1561,4 +1561,20 @@ _dispatch_verif_source_timer_data(uint64_t *target, uint64_t *deadline,
 	*deadline = dt.dt_timer.deadline;
 	return data;
 }
+/* _dispatch_timer_config_create for a scratch timer whose flags carry `timer_flags`; out = clock, target, interval, deadline */
+DISPATCH_EXPORT void
+_dispatch_verif_timer_config(dispatch_time_t start, uint64_t interval,
+		uint64_t leeway, uint8_t timer_flags, uint64_t out[4])
+{
+	struct dispatch_timer_source_refs_s dt;
+	memset(&dt, 0, sizeof(dt));
+	dt.du_timer_flags = timer_flags;
+	dispatch_timer_config_t dtc = _dispatch_timer_config_create(start,
+			interval, leeway, &dt);
+	out[0] = (uint64_t)dtc->dtc_clock;
+	out[1] = dtc->dtc_timer.target;
+	out[2] = dtc->dtc_timer.interval;
+	out[3] = dtc->dtc_timer.deadline;
+	free(dtc);
+}
 #endif // DISPATCH_VERIF
